@@ -38,7 +38,8 @@ def dec(v):
   t, _, r = v.partition(":")
   return {"i": int, "b": lambda s: s == "1", "s": str, "f": float, "l": lambda s: [int(x) for x in s.split()],
           "a": lambda s: np.array(float(s), dtype=np.float32),
-          "v": lambda s: np.array([float(x) for x in s.split()], dtype=np.float32)}[t](r)
+          "v": lambda s: np.array([float(x) for x in s.split()], dtype=np.float32),
+          "c": lambda s: np.array([[float(x)] for x in s.split()], dtype=np.float32)}[t](r)     # column: one value per row
 
 
 def build(c):
@@ -52,7 +53,8 @@ def probe(q):
   ys, ss = [], []
   # a list-valued scale_axis names two axes: both probes have rank 2 then
   vec = isinstance(getattr(q, "alpha", None), (np.ndarray, list)) and np.ndim(q.alpha) >= 1     # per-channel constant scale
-  for x in ((P1, P3) if isinstance(getattr(q, "scale_axis", None), (list, tuple)) or vec else (P1, P2)):
+  col = np.ndim(getattr(q, "post_training_scale", None)) >= 2                                       # per-row post-training scale
+  for x in ((P1, P3) if isinstance(getattr(q, "scale_axis", None), (list, tuple)) or vec or col else (P1, P2)):
     for ph, u in MODES:
       K.set_learning_phase(ph)
       DRAW[0] = u
@@ -167,7 +169,7 @@ def main():
                                                        ("RT_Keras", "RT_FromConfig")] + rnd.sample(pairs, 1))]
     if len(sys.argv) > 7 and sys.argv[7] == "text":
       seqs = [["RT_Str"], ["RT_Text0"], ["RT_Text1"], ["RT_Text2"], ["RT_Str", "RT_Str"], ["cold", "RT_Str"], ["RT_StrMut"]]
-      if any(str(v).startswith(("a:", "v:")) for v in c["opts"].values()):
+      if any(str(v).startswith(("a:", "v:", "c:")) for v in c["opts"].values()):
         seqs = [s_ for s_ in seqs if not s_[0].startswith("RT_Text")]   # an ndarray argument has no text in the literal grammar
     else:
       # cold histories: the route is taken on an object that was never called (not built); the reference function
